@@ -32,14 +32,14 @@ theorem layStructStrands_defined (l : List (Nat × StrandObj)) (ss : List (Optio
     simp only [layStructStrands]
     rcases List.mem_cons.1 hq with rfl | hq
     · apply layStructStrands_keep
-      by_cases hn : (ss.getD i none).isNone = true
-      · simp only [hn, if_true, getD_set']
-        simp only at hlt
+      simp only at hlt
+      cases h : ss.getD i none with
+      | none =>
+        simp only [Option.isNone_none, if_true, getD_set']
         simp [hlt]
-      · simp only [hn, Bool.false_eq_true, if_false]
-        cases h : ss.getD i none with
-        | none => simp [h] at hn
-        | some v => rfl
+      | some v =>
+        simp only [Option.isNone_some, Bool.false_eq_true, if_false]
+        rw [h]; rfl
     · apply ih _ _ hq
       split
       · rw [List.length_set]; exact hlt
@@ -159,7 +159,7 @@ theorem seeds_total_struct {spec : Spec} (wf : SpecWF spec) (hp : Placed spec) :
     rintro ⟨off, k, o⟩ hoff
     apply mapME_exists
     intro x hx
-    have hxl := List.mem_range.1 hx
+    have hxl : x < o.len := List.mem_range.1 hx
     have hso : so ∈ spec.structs := (mem_enum hjso).1
     have hq := withOffsets_mem _ _ _ hoff
     obtain ⟨p0, hp0⟩ := strandStart_defined wf hso hq
@@ -273,21 +273,21 @@ theorem layStructAux_starts (spec : Spec) (l : List StructObj) (ss : List (Optio
     obtain ⟨ih1, ih2⟩ := ih (layStructStrands (structStrands spec so0) ss p).1
       ((layStructStrands (structStrands spec so0) ss p).2 + (Generated.structGapStructs - Generated.structGapStrands))
     have hend := layStructStrands_end (structStrands spec so0) ss p
+    simp only [hend] at ih1 ih2
     constructor
     · intro j so hj
       cases j with
       | zero =>
         simp only [List.getElem?_cons_zero, Option.some.injEq] at hj
         subst hj
-        simp only [layStructAux, List.getD_cons_zero]
+        simp only [layStructAux, List.getD_cons_zero, hend]
         refine ⟨Nat.le_refl _, ?_⟩
         refine Nat.le_trans ?_ (layStructAux_total_ge spec l _ _)
-        rw [hend]; omega
+        omega
       | succ j =>
         simp only [List.getElem?_cons_succ] at hj
         obtain ⟨h1, h2⟩ := ih1 j so hj
-        simp only [layStructAux, List.getD_cons_succ]
-        rw [hend] at h1
+        simp only [layStructAux, List.getD_cons_succ, hend]
         exact ⟨by omega, h2⟩
     · intro j j' so hjj hj' hj
       cases j' with
@@ -298,15 +298,14 @@ theorem layStructAux_starts (spec : Spec) (l : List StructObj) (ss : List (Optio
         | zero =>
           simp only [List.getElem?_cons_zero, Option.some.injEq] at hj
           subst hj
-          simp only [layStructAux, List.getD_cons_zero, List.getD_cons_succ]
+          simp only [layStructAux, List.getD_cons_zero, List.getD_cons_succ, hend]
           have hj'' : ∃ so', l[j']? = some so' := ⟨l[j'], List.getElem?_eq_getElem (by omega)⟩
           obtain ⟨so', hso'⟩ := hj''
           have := (ih1 j' so' hso').1
-          rw [hend] at this
           omega
         | succ j =>
           simp only [List.getElem?_cons_succ] at hj
-          simp only [layStructAux, List.getD_cons_succ]
+          simp only [layStructAux, List.getD_cons_succ, hend]
           exact ih2 j j' so (by omega) (by omega) hj
 
 theorem stStart_facts {spec : Spec} {j : Nat} {so : StructObj} (hjso : (j, so) ∈ enum spec.structs) :
@@ -531,5 +530,70 @@ theorem seeding_total_struct {spec : Spec} (wf : SpecWF spec) (hp : Placed spec)
   obtain ⟨hk, hE, hW⟩ := edges_keys_struct wf hs
   obtain ⟨c, hc⟩ := build_total s (hk ▸ keysStruct_nodup wf) (fun e he => hk ▸ hE e he) (fun e he => hk ▸ hW e he)
   exact ⟨s, c, hs, hc⟩
+
+/-! ## the structure layout in closed form -/
+
+theorem layStructAux_closed (spec : Spec) (l : List StructObj) (ss : List (Option Nat)) (p j : Nat)
+    (hj : j < l.length) :
+    (layStructAux spec l ss p).1.getD j 0 = p + ((l.take j).map (fun so =>
+      widthT (structStrands spec so) + (Generated.structGapStructs - Generated.structGapStrands))).sum := by
+  induction l generalizing ss p j with
+  | nil => simp at hj
+  | cons so l ih =>
+    simp only [layStructAux]
+    cases j with
+    | zero => simp
+    | succ j =>
+      simp only [List.length_cons] at hj
+      simp only [List.getD_cons_succ, List.take_succ_cons, List.map_cons, List.sum_cons]
+      rw [ih _ _ j (by omega), layStructStrands_end]
+      omega
+
+/-- **Structure layout**: structure `j` starts after all earlier structures, each as wide as its strands with one
+    blank each (`structGapStrands`) plus the extra blank(s) between structures. -/
+theorem stStart_closed (spec : Spec) {j : Nat} (hj : j < spec.structs.length) :
+    stStart spec j = ((spec.structs.take j).map (fun so =>
+      widthT (structStrands spec so) + (Generated.structGapStructs - Generated.structGapStrands))).sum := by
+  unfold stStart
+  have : (layStruct spec).structStart = (layStructAux spec spec.structs (List.replicate spec.strands.length none) 0).1 := rfl
+  rw [this, layStructAux_closed _ _ _ _ _ hj]
+  simp
+
+/-- the keys below `P` are exactly the structure positions -/
+theorem key_iff_pos_struct {tbl : CodeTable} {spec : Spec} (wf : SpecWF spec) (ok : SpecCodes tbl spec)
+    {s : Seeds} {c : Cons} (hs : seeds .struct spec = .ok s) (hb : build s = .ok c) {i : Nat} (hi : i < s.P) :
+    i ∈ c.keys ↔ ∃ q ∈ enum spec.structs, ∃ x, x < q.2.len ∧ i = stStart spec q.1 + offT (structStrands spec q.2) x := by
+  have SS := seedSound wf ok hs hb
+  obtain ⟨li, ce, be, ee, se, te, _, _, _, _, _, _, rfl⟩ := seeds_ok hs
+  rw [SS.keys]
+  simp only [List.mem_append]
+  constructor
+  · rintro (h | h)
+    · have h' : i ∈ (posTabStruct spec).map (·.1) := h
+      rw [posTabStruct_keys] at h'
+      obtain ⟨p, hp, rfl⟩ := List.mem_map.1 h'
+      obtain ⟨q, hq, hp⟩ := List.mem_flatMap.1 hp
+      obtain ⟨x, hx, rfl⟩ := List.mem_map.1 hp
+      exact ⟨q, hq, x, List.mem_range.1 hx, rfl⟩
+    · have := mem_seqInits_ge wf _ h
+      simp only [encOf] at this hi
+      omega
+  · rintro ⟨q, hq, x, hx, rfl⟩
+    left
+    show _ ∈ (posTabStruct spec).map (·.1)
+    rw [posTabStruct_keys]
+    exact List.mem_map.2 ⟨(stStart spec q.1 + offT (structStrands spec q.2) x, 'N'),
+      List.mem_flatMap.2 ⟨q, hq, List.mem_map.2 ⟨x, List.mem_range.2 hx, rfl⟩⟩, rfl⟩
+
+/-- a structure position denotes the structure's nucleotide -/
+theorem denT_pos {tbl : CodeTable} {spec : Spec} (wf : SpecWF spec) (ok : SpecCodes tbl spec)
+    {s : Seeds} {c : Cons} (hs : seeds .struct spec = .ok s) (hb : build s = .ok c)
+    {q : Nat × StructObj} (hq : q ∈ enum spec.structs) {x : Nat} (hx : x < q.2.len) :
+    denOf .struct spec (stStart spec q.1 + offT (structStrands spec q.2) x) = (structNucsM spec q.2)[x]? := by
+  have SS := seedSound wf ok hs hb
+  obtain ⟨m, hm⟩ := getElem?_some_of_lt (l := structNucsM spec q.2) (i := x)
+    (by rw [structNucsM_length wf (mem_enum hq).1]; exact hx)
+  rw [hm]
+  exact den_pos SS.D (posTabStruct_mem (j := q.1) (so := q.2) hq hx hm)
 
 end Pepper.ConstraintGen
